@@ -5,9 +5,11 @@ CONSTANTS
   HasTimeout = {j1}
   IgnoresTerm = {j1}
   PopenMayFail = {j1}
+  PreFix = FALSE
   CoarseCancel = FALSE
   Modes = {"none", "nowait", "wait"}
 VIEW View
 INVARIANTS TypeOK ResultAtMostOnce ResultConsistent TimeoutIsUnknown CancelCoversRegistered ClosedMeansDead
-  QuiescentUnlessRace AcceptOnlyByToctou JoinCoversSnapshot
-PROPERTIES ExcStable RejectAfterFlag
+  QuiescentUnlessCbp CbpOnlyRegistered NoAcceptAfterShutdown QuiescentAfterReturnedWait
+  SnapshotCoversRegistered JoinCoversSnapshot
+PROPERTIES ExcStable RejectAfterFlag FlagStable
